@@ -56,8 +56,11 @@ class C09(Prop):
         for _ in range(400 if quick else 16000):
             xs, ys, ck = CC.gen_record_lists(rng, lists=rng.random() < 0.5)
             a, b, loc = CC.enclose(rng, xs, ys)
-            out.append({"stream": "cmp", "tag": "keyed",
-                        "input": {"a": a, "b": b, "walk": "compare", "ck": ck, "setters": CC.gen_setters(rng)}})
+            inp = {"a": a, "b": b, "walk": "compare", "ck": ck, "setters": CC.gen_setters(rng)}
+            if rng.random() < 0.2:
+                # plain dictionaries stored into the records after the conversion, the same on both sides
+                inp["wa"] = inp["wb"] = "graft"
+            out.append({"stream": "cmp", "tag": "keyed" + (":graft" if "wa" in inp else ""), "input": inp})
         # "the reported pair of ORIGINAL values": a transform decides equality only, the entries show what the operands hold
         # - also when the transformed values are of different types (a number against a placeholder text)
         pairs = [("12", "n/a"), ("7", "x"), ("n/a", "3"), ("5", "6"), ("5", "5.0"), ("a", "B"), (2.5, "x"), ("Ab", 3.5), (1.5, 2.5),
@@ -77,7 +80,7 @@ class C09(Prop):
     def valid(self, case):
         i = case.get("input")
         return (CC.valid_input(i) and not i.get("only") and not i.get("excl")
-                and i.get("wa", "conv") == "conv" and i.get("wb", "conv") == "conv")
+                and i.get("wa", "conv") in ("conv", "graft") and i.get("wb", "conv") in ("conv", "graft"))
 
     def run_impl(self, case):
         i = case["input"]
